@@ -80,6 +80,9 @@ pub struct Cfg {
     /// statements then evaluate their arguments)
     #[serde(default)]
     pub tracing_on: bool,
+    /// > 0: cleanup interval in nanoseconds (instead of `cleanup_ms`)
+    #[serde(default)]
+    pub cleanup_ns: u64,
 }
 
 #[derive(Serialize, Deserialize, Clone, Debug, PartialEq)]
@@ -121,6 +124,9 @@ pub enum Op {
     /// fault: the cache processor sleeps `ns` of virtual time at its (`skip`+1)-th scheduling
     /// point from here (i.e. somewhere inside whatever it does next)
     StallWorker { ns: u64, skip: u32 },
+    /// the application resets its statistics: `cache.metrics.clear()` (a public method of a public
+    /// field); nothing but the counters may change
+    MetricsReset,
     /// `n` lookups of one key in a row, recorded as ONE operation (result: number of hits)
     GetMany { k: u64, n: u64 },
 }
@@ -182,6 +188,7 @@ impl Op {
             Op::WhileHolding { .. } => "while_holding",
             Op::CancelNext { .. } => "cancel_next",
             Op::GetMany { .. } => "get_many",
+            Op::MetricsReset => "metrics_reset",
             Op::StallWorker { .. } => "stall_worker",
         }
     }
@@ -223,6 +230,9 @@ pub struct SimPlan {
     /// ‰ chance that a worker is stalled right after taking a message out of a channel (sync flavour)
     #[serde(default)]
     pub stall_after_recv_permille: u32,
+    /// every scheduling point costs this much virtual time (0 = computation is free)
+    #[serde(default)]
+    pub step_cost_ns: u64,
 }
 
 #[derive(Serialize, Deserialize, Clone, Debug, PartialEq, Eq)]
